@@ -169,7 +169,8 @@ def job_disk(j, seed):
 
 
 def job_cascade(j, seed):
-    ratio, sign, nsl, npulses = j
+    ratio, sign, nsl, npulses, *more = j
+    freq_unit = more[0] if more else 'Hz'  # unit the chopper frequency is written in (the pulse frequency is in Hz)
     from symex import core as C
     from .symutil import fresh_run
 
@@ -177,8 +178,8 @@ def job_cascade(j, seed):
     fresh_run()
     ratio = Fraction(ratio)
     obs, cands = [], []
-    tag = f'cascade[ratio={ratio},sense={"cw" if sign < 0 else "acw"},slits={nsl},pulses={npulses}]'
-    case = {'kind': 'cascade', 'ratio': str(ratio), 'sign': sign, 'nslits': nsl, 'npulses': npulses}
+    tag = f'cascade[ratio={ratio},sense={"cw" if sign < 0 else "acw"},slits={nsl},pulses={npulses}' + ('' if freq_unit == 'Hz' else f',chopper in {freq_unit}') + ']'
+    case = {'kind': 'cascade', 'ratio': str(ratio), 'sign': sign, 'nslits': nsl, 'npulses': npulses, 'freq_unit': freq_unit}
     begins = [C.sym_var(f'b{i}') for i in range(nsl)]
     ends = [C.sym_var(f'e{i}') for i in range(nsl)]
     beam, phase = C.sym_var('beam'), C.sym_var('phase')
@@ -188,7 +189,7 @@ def job_cascade(j, seed):
     C.CTX.fork_timeout_ms = 3000
 
     def run():
-        ch = _mk_chopper(sc, dc, ratio, sign, begins, ends, beam, phase, fp)
+        ch = _mk_chopper(sc, dc, ratio, sign, begins, ends, beam, phase, fp, freq_unit=freq_unit)
         return cc.Chopper.from_disk_chopper(ch, pulse_frequency=sc.scalar(fp, unit='Hz'), npulses=npulses)
 
     paths = C.explore(run)
@@ -406,6 +407,7 @@ def run(chk):
     pulses = [1, 2] if chk.tier == 'quick' else [1, 2, 3]
     cratios = [1, 2, 3, Fraction(1, 2), Fraction(1, 3)] if chk.tier == 'quick' else [1, 2, 3, 4, Fraction(1, 2), Fraction(1, 3), Fraction(1, 4)]
     cj = [(r, s, n, p) for r in cratios for s in (-1, 1) for n in slits[:2] for p in pulses]
+    cj += [(2, 1, 1, 1, 'kHz'), (Fraction(1, 2), -1, 2, 1, 'kHz')]  # chopper and source frequencies in different units
     run_jobs(chk, job_cascade, cj)
     run_jobs(chk, job_validation, [0])
     run_jobs(chk, job_frequency, [0])
@@ -479,7 +481,11 @@ def replay_real(case):
                 o = ch.time_offset_open(pulse_frequency=pf).to(unit='s').values
                 c = ch.time_offset_close(pulse_frequency=pf).to(unit='s').values
             else:
-                cas = Chopper.from_disk_chopper(ch, pulse_frequency=pf, npulses=case['npulses'])
+                try:
+                    cas = Chopper.from_disk_chopper(ch, pulse_frequency=pf, npulses=case['npulses'])
+                except Exception as e:  # noqa: BLE001
+                    bad.append(f'from_disk_chopper raises {type(e).__name__}: {e} for a {fu} chopper and a Hz source')
+                    break
                 o, c = cas.time_open.to(unit='s').values, cas.time_close.to(unit='s').values
             if kind == 'disk' and len(o) != (round(max(ratio, 1)) + 1) * nsl:
                 bad.append(f'{len(o)} openings reported for |f|/f_pulse = {ratio} ({fu} chopper, Hz source), {(round(max(ratio, 1)) + 1) * nsl} expected ({round(max(ratio, 1))} rotation(s) per pulse period plus one, {nsl} slits)')
@@ -509,6 +515,8 @@ def replay_real(case):
             bad = [b_ for b_ in bad if b_.startswith('missing')]
         elif sig.endswith('disk:count'):
             bad = [b_ for b_ in bad if 'openings reported' in b_]
+        elif sig.endswith('cascade:raises'):
+            bad = [b_ for b_ in bad if 'raises' in b_]
     elif kind == 'validation':
         m = case.get('model', {})
         if m:
